@@ -15,6 +15,11 @@ import StarsimModel.Model.Compartments
 namespace StarsimModel.SimCore
 open Gen.Sir StarsimModel.Compartments
 
+/-- The slicing conventions of the two cumulative results, as regenerated from `People.update_results` and
+    `Infection.update_results`: deaths exclude the current step, infections include it. -/
+theorem cum_conventions :
+    cumInclusive "People" "cum_deaths" = some false ∧ cumInclusive "Infection" "cum_infections" = some true := by decide
+
 /-- The step, phase by phase, in the order `Loop.collect_funcs` schedules them (unfolds the regenerated list). -/
 theorem simStep_eq (s : Sim) (ev : Events) :
     simStep s ev = tickPhase (removeDeadPhase (diseaseResultsPhase (peopleResultsPhase (diePhase
